@@ -7,7 +7,7 @@
 // OB: ob_bag_step tier=quick unwind=6 timeout=120 params=10,2 bounds="FixedSizeBag<T,3>, T=int (p1=0) or Counted (p1=1): arbitrary valid pre-state, ONE op of 10 kinds {push_front, push_back, emplace_front, emplace_back, pop_front, pop_back, extract_front, extract_back, clear, front/back read+write}; then size/empty/full, forward (LIFO) and reverse traversal, const traversal, live-instance count" desc="bag: one step from an arbitrary state equals a stack model; elements constructed/destroyed exactly once"
 // OB: ob_cbag_step tier=quick unwind=6 timeout=120 params=4,2 bounds="ConcurrentFixedSizeBag<T,3> from one thread, T=int or Counted: arbitrary valid pre-state, ONE op of 4 kinds {push_front, push_back, clear, front/back read+write}" desc="concurrent bag (one thread): insert/clear/access step equals a stack model"
 // OB: ob_cbag_pop tier=quick unwind=6 timeout=120 params=2,2 bounds="ConcurrentFixedSizeBag<T,3> from one thread, T=int or Counted: arbitrary valid pre-state, ONE pop_front or pop_back" desc="concurrent bag (one thread): pop removes and destroys exactly the top element"
-// OB: ob_bag_seq tier=quick unwind=6 timeout=120 params=9,9 bounds="FixedSizeBag<Counted,3>: two pushes then every pair of ops from 9 kinds, bag destroyed at the end" desc="bag: sequences construct/destroy exactly once, nothing live after destruction"
+// OB: ob_bag_seq quick_limit=30 tier=quick unwind=6 timeout=120 params=9,9 bounds="FixedSizeBag<Counted,3>: two pushes then every pair of ops from 9 kinds, bag destroyed at the end" desc="bag: sequences construct/destroy exactly once, nothing live after destruction"
 // OB: ob_cbag_seq tier=quick unwind=6 timeout=120 params=4,4 bounds="ConcurrentFixedSizeBag<Counted,3> from one thread: two pushes then every pair of ops from {push_front, push_back, clear, access}, bag destroyed at the end" desc="concurrent bag (one thread): sequences without pop construct/destroy exactly once"
 #include "vf.h"
 #include <cstring>
